@@ -53,6 +53,12 @@ func forEachEngineProgram(r *harness.Run, plans []famPlan, c03MaxN int, f func(w
 			completed = n
 		}
 	}
+	// labels in dead code (after end / return / break / goto / an infinite loop, in shared switch bodies), with gotos to them
+	dead := deadLabelPrograms()
+	r.Parallel(uint64(len(dead)), func(w int, i uint64) {
+		f(w, engineProgram{Desc: fmt.Sprintf("dead-label program %d", i), Script: dead[i]})
+	})
+	r.Set("dead_label_programs", len(dead))
 	seqLen := 2
 	if r.Tier == "thorough" {
 		seqLen = 3
@@ -130,6 +136,12 @@ func seqTemplates() []func(k int) model.Stmt {
 		},
 		func(k int) model.Stmt { return model.Stmt{Kind: model.SLabel, Name: n("L", k)} },
 		func(k int) model.Stmt { return model.Stmt{Kind: model.SGoto, Name: "EXT"} },
+		func(k int) model.Stmt {
+			return model.Stmt{Kind: model.SGotoIf, Name: "EXT", Flag: n("J", k), WantSet: true}
+		},
+		func(k int) model.Stmt {
+			return model.Stmt{Kind: model.SWhile, Cond: fl("W", k), Body: []model.Stmt{cmd("c", k), {Kind: model.SGotoIf, Name: "EXT", Flag: n("J", k), WantSet: false}}}
+		},
 		func(k int) model.Stmt {
 			return model.Stmt{Kind: model.SIf, Arms: []model.Arm{{Cond: &model.Cond{Kind: model.COr, L: &model.Cond{Kind: model.CAnd, L: fl("P", k), R: fl("Q", k)}, R: fl("R", k)}, Body: []model.Stmt{cmd("c", k)}}}}
 		},
